@@ -87,6 +87,13 @@ func CheckMaterial(c *fw.Ctx, m *scen.Material, where string, expectY *ref.Pt, s
 			return Y, false
 		}
 	}
+	// a finished session must not hand out a result with absent points or scalars
+	for _, id := range m.IDs {
+		if msg := probeMaterial(m, id); msg != "" {
+			bad("result-has-absent-field", "party %q finished with key material that lacks a field (%s)", id, msg)
+			return Y, false
+		}
+	}
 	// same group key everywhere
 	Y = m.PublicKey(m.IDs[0])
 	for _, id := range m.IDs[1:] {
@@ -236,3 +243,21 @@ func CheckSignOutcome(c *fw.Ctx, p scen.Proto, s *scen.Session, signers []party.
 }
 
 func fmtIDs(ids []party.ID) string { return fmt.Sprintf("%q", ids) }
+
+// probeMaterial reads every field the oracles use and reports what the bridge could not read.
+func probeMaterial(m *scen.Material, id party.ID) (msg string) {
+	defer func() {
+		if p := recover(); p != nil {
+			if f, ok := p.(scen.Fatal); ok {
+				msg = fmt.Sprint(f)
+				return
+			}
+			msg = fmt.Sprintf("panic while reading it: %v", p)
+		}
+	}()
+	_ = m.PublicKey(id)
+	_ = m.Share(id)
+	_ = m.PubShares(id)
+	_ = m.ChainKey(id)
+	return ""
+}
